@@ -168,6 +168,11 @@ Fixpoint event_loop (fuel : nat) (m : machine) (ev : string) : M (machine * resu
 
 Definition loop_fuel : nat := 64.
 
+(* UpdateData, then the transition loop *)
+Definition persist_then_loop (m : machine) (ev : string) : M (machine * result) :=
+  ok <- persist m ;;
+  if negb ok then ret (m, mkResult false ErrStore) else event_loop loop_fuel m ev.
+
 (* SendEvent(event, ctx) *)
 Definition send_event (m : machine) (ev : string) (ctx : option wire_msg) : M (machine * result) :=
   if String.eqb ev Ev_Done then ret (m, mkResult true ErrNone) else
@@ -175,21 +180,15 @@ Definition send_event (m : machine) (ev : string) (ctx : option wire_msg) : M (m
   | Some c =>
       if negb (validate_ctx (m_data m) c) then
         (* recursive SendEvent(Event_OnInvalid_Message, nil) *)
-        ok <- persist m ;;
-        if negb ok then ret (m, mkResult false ErrStore) else event_loop loop_fuel m Ev_Invalid
+        persist_then_loop m Ev_Invalid
       else
         match apply_ctx (m_data m) c with
         | None =>
             ret (m, mkResult (String.eqb ev "Event_OnSwapOutStarted" ||
                               String.eqb ev "Event_SwapInSender_OnSwapInRequested") ErrApply)
-        | Some d' =>
-            let m1 := m <| m_data := d' |> in
-            ok <- persist m1 ;;
-            if negb ok then ret (m1, mkResult false ErrStore) else event_loop loop_fuel m1 ev
+        | Some d' => persist_then_loop (m <| m_data := d' |>) ev
         end
-  | None =>
-      ok <- persist m ;;
-      if negb ok then ret (m, mkResult false ErrStore) else event_loop loop_fuel m ev
+  | None => persist_then_loop m ev
   end.
 
 (* Recover() *)
